@@ -44,7 +44,7 @@ def main():
     dst = os.path.join(scratch, 'repo')
     meta = {'property': a.prop, 'name': a.name, 'needs_to_manifest': a.needs, 'description': a.desc, 'ran': []}
     try:
-        shutil.copytree('/repo', dst, ignore=shutil.ignore_patterns('.git', '__pycache__', '*.pyc'))
+        shutil.copytree('/repo', dst, ignore=shutil.ignore_patterns('.git', '__pycache__', '*.pyc', '.hypothesis', '.benchmarks'))
         orig = os.path.join(scratch, 'orig')
         shutil.copytree(dst, orig)
         demo = os.path.join(dst, os.path.basename(a.demo))
